@@ -228,6 +228,10 @@ func init() {
 		},
 		"(*os.fileStat).Size":  func(fr *Frame, a []Value) Value { return uint64(hostOf(a[0], "stat").X.(*statInfo).size) },
 		"(*os.fileStat).Name":  func(fr *Frame, a []Value) Value { return hostOf(a[0], "stat").X.(*statInfo).name },
+		"(*os.fileStat).ModTime": func(fr *Frame, a []Value) Value {
+			// logical modification time, one second per tick after the engine's epoch
+			return Struct{uint64(0), uint64(clockT0) + uint64(hostOf(a[0], "stat").X.(*statInfo).mtime)*1_000_000_000, (*Value)(nil)}
+		},
 		"(*os.fileStat).IsDir": func(fr *Frame, a []Value) Value { return hostOf(a[0], "stat").X.(*statInfo).isDir },
 		"(*os.fileStat).Mode":  func(fr *Frame, a []Value) Value { return norm(hostOf(a[0], "stat").X.(*statInfo).mode, 32, false) },
 		"(*os.unixDirent).Name": func(fr *Frame, a []Value) Value {
